@@ -290,6 +290,20 @@ def hEvent (e : HEnv) (st : HState) (ev : String) : HState := Id.run do
   -- notify accounting (C13): the model predicts every notify call
   if let some x := expectNf then
     if nf ≠ x then issues := issues ++ [s!"DIFF notify calls during {cmd}: model {x} impl {nf}"]
+  -- C11: which items have been destroyed so far
+  if let some dr := fld "dr" then
+    let entries := if dr = "-" then [] else dr.splitOn "."
+    for x in entries do
+      if (x.splitOn "x").length > 1 then issues := issues ++ [s!"ORACLE C11 item {x} was dropped more than once (after {cmd})"]
+    let implDropped := (entries.filterMap (fun x => ((x.splitOn "x").headD "").toNat?)).mergeSort
+    let curVals := (getStream s s.n.cur).filterMap id
+    for v in implDropped do
+      if curVals.contains v then issues := issues ++ [s!"ORACLE C11 item {v} of the current stream was dropped while the matcher is alive (after {cmd})"]
+    -- model: a stream's items are destroyed exactly when no handle reaches the stream any more
+    let modelDropped := ((List.range s.n.nextStream).filter (fun sid => s.n.strongCount sid = 0)).foldl
+      (fun acc sid => acc ++ (getStream s sid).filterMap id) []
+    if modelDropped.mergeSort ≠ implDropped then
+      issues := issues ++ [s!"DIFF destroyed items after {cmd}: model {modelDropped.mergeSort} impl {implDropped}"]
   -- C20
   if let some v := ai then
     if v ≠ liveHandles s then issues := issues ++ [s!"ORACLE C20 active_injectors() = {v} but {liveHandles s} injector handles of the current stream are alive (after {cmd})"]
@@ -327,6 +341,14 @@ def hLine (ws : List String) : String := Id.run do
     let fresh := (get "fresh").splitOn "/"
     if parts.headD "" ≠ fresh.headD "" || parts.getD 2 "" ≠ fresh.getD 1 "" then
       issues := issues ++ [s!"ORACLE C07 quiescent snapshot {st.lastSnap} differs from a fresh matcher's result {get "fresh"}"]
+  -- C11: after the matcher, the snapshot and all injectors are gone every item was destroyed exactly once
+  let all := get "alldropped"
+  if all ≠ "" then
+    let entries := if all = "-" then [] else all.splitOn "."
+    let ids := (pair (get "items")).map (·.1)
+    for v in ids do
+      if !entries.contains (toString v) then
+        issues := issues ++ [s!"ORACLE C11 after dropping the matcher and all handles, item {v} was dropped {(entries.find? (fun x => x.startsWith (toString v ++ "x"))).getD "0 times"}"]
   if issues.isEmpty then "ok" else " ## ".intercalate issues
 
 end NucleoVerif.Driver
